@@ -25,6 +25,51 @@ class TplCase(Case):
         self.name = f"templates[n={n}]"
 
     def body(self, ctx):
+        from pyvc.sym import Unsupported
+
+        try:
+            self._body(ctx)
+        except (AttributeError, IndexError, TypeError, KeyError) as e:
+            # the generated text no longer has the shape this (syntactic) contract knows: undecided, never a verdict;
+            # the semantic stand-in below then exercises the installed methods
+            raise Unsupported(f"template text has another shape than the contract expects: {type(e).__name__}: {e}") from None
+
+    def standin(self):
+        """Bounded semantic check of the installed __eq__/__hash__/__bool__/__init__ (run when the shape contract is
+        undecided): structures of n uint8/uint16 fields, instance pairs before and after assignments."""
+        from dissect.cstruct import cstruct
+
+        n = max(self.n, 1)
+        cs = cstruct()
+        cs.load("struct inner { uint8 x; uint8 y; }; struct T { " + " ".join(f"uint{8 if i % 2 else 16} f{i};" for i in range(n)) + " inner nest; };")
+        T = cs.T
+        fails = []
+        evals = 0
+
+        def chk(ident, cond, what):
+            nonlocal evals
+            evals += 1
+            if not cond and len(fails) < 3:
+                fails.append({"id": ident, "inputs": {"fields": n}, "observed": what})
+
+        for k in range(n):
+            vals = {f"f{i}": (i * 7 + 3) % 200 for i in range(n)}
+            a, b = T(**vals), T(**vals)
+            ha = hash(a)
+            chk(f"eq{k}", a == b and hash(a) == hash(b), "equal field values: == or hash differ")
+            chk(f"bool{k}", bool(a) is True and bool(T()) is False, "bool(a) / bool(T())")
+            setattr(a, f"f{k}", 201)
+            chk(f"ne{k}", a != b, f"after a.f{k} = 201: still equal to the old value")
+            setattr(b, f"f{k}", 201)
+            chk(f"eq-after{k}", a == b and hash(a) == hash(b), f"after the same assignment to both (hash(a) was taken before): == {a == b}, hashes {hash(a)} {hash(b)} (before {ha})")
+            hb = hash(b)
+            b.nest.x = 9
+            a.nest.x = 9
+            chk(f"nested{k}", a == b and hash(a) == hash(b), f"after the same nested assignment to both: == {a == b}, hashes equal {hash(a) == hash(b)} (hash(b) before {hb})")
+            chk(f"reparse{k}", T(a.dumps()) == a and hash(T(a.dumps())) == hash(a), "parse of dumps(a): == or hash differ")
+        return {"name": f"standin:{self.name}", "bound": TplCase.standin.__doc__.split(":", 1)[1].strip(), "evaluations": evals, "distinct": evals, "failures": fails}
+
+    def _body(self, ctx):
         from dissect.cstruct.types import structure as S
 
         n = self.n
